@@ -9,7 +9,7 @@
    the table (the checker returns the overload's type and the compiler emits a call).
 
    Each function returns the type the checker leaves in latestReturnedType, or None when it reports an
-   error.  Definitions only; the operator enumerations come from Gen/Operators.v (regenerated from
+   error.  Definitions only; the operator enumerations come from Gen/OperatorEnum.v (regenerated from
    src/ast/operators.go on every run). *)
 From Coq Require Import List Bool.
 Import ListNotations.
